@@ -41,6 +41,28 @@ pub fn rec_line<K: EnrKey>(e: &Enr<K>) -> String {
     )
 }
 
+/// the same line built without asking the library to encode, format or measure the record (only
+/// `seq`, `node_id`, `signature` and `iter` are called): the encoding is written by the harness's own
+/// RLP writer.  Used for "quiet" steps, after which nothing may have observed the record's bytes.
+pub fn rec_line_quiet<K: EnrKey>(e: &Enr<K>) -> String {
+    let mut payload = rlp_bytes(e.signature());
+    payload.extend_from_slice(&rlp_uint(e.seq()));
+    for (k, v) in e.iter() {
+        payload.extend_from_slice(&rlp_bytes(k));
+        payload.extend_from_slice(v);
+    }
+    let enc = rlp_list(&payload);
+    format!(
+        "rec seq={} nid={} sig={} pairs={} enc={} size={}",
+        e.seq(),
+        hx(&e.node_id().raw()),
+        hx(e.signature()),
+        pairs_str(e),
+        hx(&enc),
+        enc.len(),
+    )
+}
+
 fn opt_hex(o: Option<Vec<u8>>) -> String {
     match o {
         None => "none".into(),
@@ -374,6 +396,22 @@ where
                 (len_ok, list_ok)
             },
             |(a, b)| format!("{}{}", a as u8, b as u8),
+        ),
+    );
+    // every route to the node id: accessor, borrowing and owning conversions, from the public key
+    put(
+        "nidconv",
+        g(
+            || {
+                let a: NodeId = e.into();
+                let b: NodeId = e.clone().into();
+                let c = NodeId::from(e.clone());
+                let d = NodeId::from(e);
+                let f = NodeId::from(e.public_key());
+                let n = e.node_id();
+                a == n && b == n && c == n && d == n && f == n && a.raw() == n.raw()
+            },
+            |b| (b as u8).to_string(),
         ),
     );
     // conversions and iteration
